@@ -341,7 +341,8 @@ func (conn *Conn) read(ctx *Context, async bool) {
 		if ctx.Error == shutdownMsg {
 			call.Error = ErrShutdown
 		} else {
-			call.Error = errors.New(ctx.Error)
+			// ctx.Error may alias the pooled read buffer (zero-copy header decoders): copy it.
+			call.Error = errors.New(string(append([]byte(nil), ctx.Error...)))
 		}
 		err = conn.codec.ReadResponseBody(nil, nil)
 		if err != nil {
